@@ -26,16 +26,17 @@ ASSUMPTIONS = [
     "The reference value is what the real lambda object returns on a sample element at the moment Select is called; the "
     "emitted lambda is evaluated by CPython with NO access to the module namespace (an un-frozen name is a NameError).",
     "A capture that is used (not shadowed) and holds a non-transportable value must make the call raise ValueError.",
-    "Enum members written as Enum.MEMBER in the lambda (documented to stay symbolic) and captured callables (C05) are not generated here; an enum member HELD by a captured variable / class constant / module attribute is a value like any other, and not one a literal can represent (plain Enum, and IntEnum - an instance of a subclass of int): ValueError.",
+    "Enum members written as Enum.MEMBER in the lambda (documented to stay symbolic) and captured callables (C05) are not generated here; an enum member HELD by a captured variable / class constant / module attribute is a value like any other: a plain Enum member is not transportable (ValueError); an IntEnum member or an instance of a float subclass (what a numpy float is) is a number and must be embedded as that number - the emitted constant must be compilable, so its type must be exactly int / float.",
 ]
 BUDGET = {"quick": (6, 1000), "thorough": (16, 6000)}
 
 _T = st.one_of(
     st.integers(-5, 50).map(repr), st.sampled_from(["0.5", "2.25", "-1.5"]), st.sampled_from(["'s'", "\"it's\"", "'a\\\\b'", "''"]),
     st.sampled_from(["True", "False"]), st.sampled_from(["b'ab'", "2j"]),
+    st.sampled_from(["Lvl.HIGH", "Lvl.LOW", "F64(2.5)"]),  # numbers that are instances of a SUBCLASS of int / float: embedded as the plain number
 )
 _NUM = st.one_of(st.integers(-5, 50).map(repr), st.sampled_from(["0.5", "2.25"]))
-_NT = st.sampled_from(["[1, 2]", "{'k': 1}", "None", "Obj()", "(1, 2)", "{1, 2}", "Col.RED", "Lvl.HIGH"])  # enum members HELD by a name (plain Enum; IntEnum: an int subclass no literal represents)
+_NT = st.sampled_from(["[1, 2]", "{'k': 1}", "None", "Obj()", "(1, 2)", "{1, 2}", "Col.RED"])  # a plain Enum member HELD by a name: not a value a literal can represent
 
 REFS = {"v1": "{v1}", "v2": "v2", "G1": "G1", "Ac": "A.c", "Abc2": "A.B.c2", "K": "om.K"}
 
@@ -144,6 +145,8 @@ class Lvl(enum.IntEnum):
     HIGH = 2
 class Col(enum.Enum):
     RED = 1
+class F64(float):
+    pass
 G1 = {v["G1"]}
 G2 = {v["G2"]}
 class A:
@@ -215,7 +218,7 @@ def check(case) -> Result:
             log.append(v0)
             return EventDataset.Select(self, f)
 
-    om = srcgen.load("import enum\nclass Obj:\n    pass\nclass Lvl(enum.IntEnum):\n    LOW = 1\n    HIGH = 2\nclass Col(enum.Enum):\n    RED = 1\n" + f"K = {case['vals']['K']}\n", prefix="vfom")
+    om = srcgen.load("import enum\nclass Obj:\n    pass\nclass Lvl(enum.IntEnum):\n    LOW = 1\n    HIGH = 2\nclass Col(enum.Enum):\n    RED = 1\nclass F64(float):\n    pass\n" + f"K = {case['vals']['K']}\n", prefix="vfom")
     mod = None
     try:
         text = module_text(case, om.__name__)
@@ -272,7 +275,7 @@ def check(case) -> Result:
             return r.fail(err)
         for op, arg in case["history"]:
             try:
-                val = eval(arg, {"Obj": mod.Obj, "Lvl": mod.Lvl, "Col": mod.Col}) if arg else None
+                val = eval(arg, {"Obj": mod.Obj, "Lvl": mod.Lvl, "Col": mod.Col, "F64": mod.F64}) if arg else None
                 if op == "set_v1":
                     mod.OUT["set_v1"](val)
                 elif op == "set_G1":
